@@ -1,4 +1,10 @@
 /-
+  NOTE (added after this file was written): the hypotheses `AddRounding` / `LoopRestRounding` carried below have since been
+  discharged — `Dec.C01GenAddSpec.addRounding`, `loopRestRounding` — and `Dec.AllClosed.total_all` states totality for ALL 123
+  dispatched methods with no hypothesis.  `stillOpen`, `total_all'`, `total_all''` and the `…_closed` forms below are kept as the
+  record of how the statement was reached; cite `AllClosed.total_all`.
+-/
+/-
   C15 (generated-code level), second part — brings `C15GenTotal.lean` up to date with what landed after it, and states exactly how
   far the G-level statement of C15 ("no public operation panics for any operand bits, mode, integer or string") reaches.
 
